@@ -376,7 +376,8 @@ def real_outcome(io_mod, opts, exc, fake_ctx):
   if any(n != "python-compiler-error" for n in names):
     return [9], "unexpected errors " + repr(names)
   default_ast = builtin_stubs.GetDefaultAst(pyi_parser.PyiOptions.from_toplevel_options(opts))
-  if r.ast != default_ast or r.pyi is None or not r.pyi.startswith(builtin_stubs.DEFAULT_SRC):
+  from pytype.pytd import pytd_utils
+  if r.ast is None or not pytd_utils.ASTeq(r.ast, default_ast) or r.pyi is None or not r.pyi.startswith(builtin_stubs.DEFAULT_SRC):
     return [9], "not the default stub"
   suffix = r.pyi[len(builtin_stubs.DEFAULT_SRC):]
   if suffix == "":
@@ -851,12 +852,20 @@ def run(res):
                              "intrinsics": len(info["intrinsics"]),
                              "intrinsics_without_handler": [n for n, h in info["intrinsics"] if not h],
                              "except_chain": info["clauses"]}
+  timing = {}
+  t = time.time()
   common.coq_obligations(res, "C15")
+  timing["coq"] = round(time.time() - t, 1); t = time.time()
   r = common.rng(res.seed, "c15")
   if info is not None:
     correspondence_chain(res, info, common.rng(res.seed, "c15-chain"))
+  timing["chain"] = round(time.time() - t, 1); t = time.time()
   correspondence_lines(res, common.rng(res.seed, "c15-lines"), 1500 if thorough else 500)
+  timing["lines"] = round(time.time() - t, 1); t = time.time()
   search(res, r, thorough)
+  timing["search+minimise"] = round(time.time() - t, 1)
+  res.extra["timing_s"] = timing
+  common.log(f"[C15] timing {timing}")
   if thorough:
     pr = subprocess.run(["timeout", "1500", "coqchk", "-silent", "-o", "-Q", common.COQ, "PV", "PV.Props.C15"],
                         capture_output=True, text=True, cwd=common.COQ)
